@@ -826,9 +826,18 @@ class StateNode(Generic[TContext, TEvent]):
             return initial
 
         # 🕰️ History pseudo-states are never a valid initial target.
+        raw_states = config.get("states", {})
+        if not isinstance(raw_states, dict):
+            # 🛡️ Same report as the shape validation in `__init__`, which
+            #    runs later; without it `.items()` raised AttributeError.
+            raise InvalidConfigError(
+                f"State '{self.id}' has an invalid 'states' value of type "
+                f"'{type(raw_states).__name__}'. Expected an object/dict "
+                f"mapping state names to definitions."
+            )
         candidates = [
             key
-            for key, child in config.get("states", {}).items()
+            for key, child in raw_states.items()
             if not (isinstance(child, dict) and child.get("type") == "history")
         ]
 
